@@ -27,7 +27,7 @@ for p in PROPS:
             'text': meta['claim'],
             'design_ref': 'DESIGN.md section 4, ' + pid,
         },
-        'level_note': meta['trusted'],
+        'level_note': meta['trusted'] + ' Outside the claim: ' + (meta.get('outside') or 'nothing beyond the stated bounds') + '.',
         'technique': meta.get('technique', 'bounded symbolic execution of the real pamqp code '
                               '(CrossHair + z3), counterexamples replayed concretely'),
     })
